@@ -154,8 +154,14 @@ Definition total (ncols : nat) (rows : list row) (k : key) : Z :=
   if (fst k <? ncols)%nat then cnt str_eq_dec (column (fst k) rows) (snd k) else 0.
 
 (* executable checker for a reported table (any order) against the specification *)
+Fixpoint nodup_keysb (l : list key) : bool :=
+  match l with
+  | [] => true
+  | k :: r => negb (memb key_eq_dec k r) && nodup_keysb r
+  end.
+
 Definition rare_checkb (thr : Z) (ncols : nat) (rows : list row) (rep : al key) : bool :=
-  (if NoDup_dec key_eq_dec (map fst rep) then true else false)
+  nodup_keysb (map fst rep)
   && forallb (fun kc : key * Z => (snd kc =? total ncols rows (fst kc)) && (0 <? snd kc) && (snd kc <=? thr)) rep
   && forallb (fun k => let t := total ncols rows k in
                        negb ((0 <? t) && (t <=? thr)) || (get key_eq_dec rep k =? t))
@@ -226,7 +232,9 @@ Record C13_case := mkCase {
 }.
 
 (* per column: cardinality, histogram, per-batch coverages, mean, annotation;  and the rare table *)
-Definition col_obs := (option nat * list Z * list Q * Q * Z)%type.
+(* rationals are printed as (numerator, denominator) *)
+Definition qpair (q : Q) : Z * Z := (Qnum q, Zpos (Qden q)).
+Definition col_obs := (option nat * list Z * list (Z * Z) * (Z * Z) * Z)%type.
 Definition C13_obs := (list col_obs * al key)%type.
 
 Definition C13_model (c : C13_case) (sizes : list nat) : C13_obs :=
@@ -236,7 +244,7 @@ Definition C13_model (c : C13_case) (sizes : list nat) : C13_obs :=
           let covs := coverages syms j bs in
           (card (lookup_hash (c_hash c)) (c_cap c) j bs,
            hist (c_edges c) (c_bound c) j bs,
-           covs, qmean covs, cov_annot covs))
+           map qpair covs, qpair (qmean covs), cov_annot covs))
        (seq 0%nat (c_ncols c)),
    rare (c_thr c) (c_ncols c) bs).
 
